@@ -408,6 +408,7 @@ struct WorldTracker : Monitor {
 			const J &f = w->cfg["faults"];
 			if (f.k == J::OBJ && f.gets("ref", "abs") == "T0") {
 				w->S.faults.t0 = w->T0 + (uint64_t)f.geti("t0_us"); w->S.faults.t1 = w->T0 + (uint64_t)f.geti("t1_us");
+				if (f.geti("drought_t1_us") > 0) { w->S.faults.dr0 = w->T0 + (uint64_t)f.geti("drought_t0_us"); w->S.faults.dr1 = w->T0 + (uint64_t)f.geti("drought_t1_us"); w->S.faults.dr_host = w->srv_host; }
 			}
 			const J &ops = w->plan["ops"];
 			if (ops.k == J::ARR) for (auto &op : ops.a) if (op.gets("ref", "T0") == "T0") {
